@@ -165,8 +165,13 @@ def check(case):
         if ftype == "dead-again":
             # the servers stay down: they are brought back after dead_timeout, fail again, are brought back again ...
             # every read on the way is a miss like the first
-            for gap in failure.get("gaps", (61, 0, 2, 61, 0, 130)):
+            for gi, gap in enumerate(failure.get("gaps", (61, 0, 2, 61, 0, 130))):
                 env.clock.advance(gap)
+                if failure.get("then") and gi == failure.get("then_at", 0):
+                    # the outage changes its nature: what was unreachable now accepts connections and hangs up, or answers
+                    # with lines that are no memcached replies (a load balancer in front of a server that is starting)
+                    for srv in env.servers:
+                        srv.down = failure["then"]
                 rr = env.call(fn)
                 pre += 1
                 if rr[0] != "ok":
@@ -309,6 +314,8 @@ def sweep_cases(tier, seed):
                 for ra in (0, 1, 2):
                     yield dict(base, cfg=dict(extra, retry_attempts=ra), failure={"type": "dead-again", "what": ("refused", "timeout", "reset-recv")[(ra + ci) % 3]})
                     yield dict(base, cfg=dict(extra, retry_attempts=ra), failure={"type": "dead-again", "gaps": [61, 1.5, 1.5, 61, 61, 0, 0], "what": "oserror"})
+                    then = ("hangup", "garbage", "busy")[(ra + ci) % 3]
+                    yield dict(base, cfg=dict(extra, retry_attempts=ra), failure={"type": "dead-again", "what": ("refused", "timeout", "oserror")[ci % 3], "then": then, "then_at": (0, 1, 3)[(ci + ra) % 3]})
             # every socket event / reply of the fault-free call
             D, C = object(), object()
             env, c = setup(base, True)
